@@ -55,7 +55,8 @@ Inductive op :=
 | OBurn (n : Z)
 | OEnter
 | OXfer (t : N) (amt : Z)
-| OExit (st : N).
+| OExit (st : N)
+| OHang.                        (* the frame never answers: the call-context timer fires *)
 
 Inductive dtype := DNone | DMessage | DCall.
 
@@ -63,6 +64,7 @@ Record tx := mkTx {
   t_from : N; t_to : N; t_value : Z; t_limit : Z;
   t_dt : dtype;
   t_datalen : Z;          (* bytes of the compact JSON data field *)
+  t_async : bool;         (* the scripted contract runs as an engine-backed (asynchronous) handler *)
   t_ops : list op          (* the script, used when the call reaches the scripted contract *)
 }.
 
@@ -154,10 +156,29 @@ Fixpoint unwind (cur : wstate) (f : frame) (stk : list frame) : N * wstate * fra
   | par :: stk' => unwind (fst (pop_into StSuccess cur f par)) (snd (pop_into StSuccess cur f par)) stk'
   end.
 
+(* the outermost frame of the running call and its snapshot (the `target` of
+   callContext.Call / waitResult / cleanUpFrames) *)
+Fixpoint root_snap (f : frame) (stk : list frame) : wstate :=
+  match stk with [] => f_snap f | par :: stk' => root_snap par stk' end.
+Fixpoint root_frame (f : frame) (stk : list frame) : frame :=
+  match stk with [] => f | par :: stk' => root_frame par stk' end.
+
+(* the snapshot of the innermost frame: what a WRONG cleanUpFrames would reset to *)
+Definition inner_snap (f : frame) (stk : list frame) : wstate := f_snap f.
+
 (* the current frame f returns status st; k continues the script in the caller.
-   At the root of the call the result is: status, state after popFrame, root frame. *)
-Definition leave_k (k : wstate -> frame -> list frame -> N * wstate * frame)
+   At the root of the call the result is: status, state after popFrame, root frame.
+   Asynchronous handlers (engine-backed contracts: frames pushed by waitResult on a
+   call request): a Timeout status at ANY depth makes handleResult take the
+   cleanUpFrames(target) path: every frame up to the call's root frame is dropped,
+   the world is reset to `cl f stk` (the code: target.snapshot = root_snap) and
+   the whole call returns Timeout.  Synchronous nested cc.Call: the callee's frame
+   is its own target, so the failure is an ordinary caught failure. *)
+Definition leave_k (cl : frame -> list frame -> wstate) (async : bool)
+           (k : wstate -> frame -> list frame -> N * wstate * frame)
            (stk : list frame) (st : N) (cur : wstate) (f : frame) : N * wstate * frame :=
+  if async && N.eqb st StTimeout then (StTimeout, cl f stk, root_frame f stk)
+  else
   match stk with
   | [] => (st, if ok st then cur else f_snap f, f)
   | par :: stk' => k (fst (pop_into st cur f par)) (snd (pop_into st cur f par)) stk'
@@ -176,35 +197,43 @@ Definition xfer_call (p : params) (cur : wstate) (f : frame) (t : N) (amt : Z) :
 (* run: `cur` current world state, `f` current frame, `stk` its ancestors
    inside this call (innermost first).  Result: status of the call's root
    frame, the world state after popFrame of the root frame, the root frame.
-   A callee's failure is caught: the caller continues with the next instruction. *)
-Fixpoint run (p : params) (ops : list op) (cur : wstate) (f : frame) (stk : list frame)
+   A callee's failure is caught: the caller continues with the next instruction
+   (except the asynchronous timeout path, see leave_k).
+   `cl` = which snapshot cleanUpFrames resets to; the code is `run` = run_gen root_snap. *)
+Fixpoint run_gen (cl : frame -> list frame -> wstate) (p : params) (async : bool)
+         (ops : list op) (cur : wstate) (f : frame) (stk : list frame)
   : N * wstate * frame :=
   match ops with
   | [] => unwind cur f stk
   | o :: rest =>
-    let k := run p rest in
+    let k := run_gen cl p async rest in
+    let leave := leave_k cl async k in
     match o with
     | OSet a key v => k (set_sto cur a key v) f stk
     | OMove a b amt =>
-        if amt <? 0 then leave_k k stk StInvalidParameter cur f
-        else if bal cur a <? amt then leave_k k stk StOutOfBalance cur f
+        if amt <? 0 then leave stk StInvalidParameter cur f
+        else if bal cur a <? amt then leave stk StOutOfBalance cur f
         else k (move cur a b amt) f stk
     | OLog id => k cur (add_log f (LScript id)) stk
     | OBtp id => k cur (add_btp f id) stk
     | OBurn n =>
         let d := deduct f (Z.max 0 n) in
-        if fst d then k cur (snd d) stk else leave_k k stk StOutOfStep cur (snd d)
+        if fst d then k cur (snd d) stk else leave stk StOutOfStep cur (snd d)
     | OEnter =>
-        (* cc.Call(sub, StepAvailable): pushFrame; the callee first pays contractCall *)
+        (* cc.Call(sub, StepAvailable) / cc.OnCall(sub, StepAvailable): pushFrame; the
+           callee first pays contractCall *)
         let d := deduct (new_frame cur (avail f)) (p_ccall p) in
-        if fst d then k cur (snd d) (f :: stk) else leave_k k (f :: stk) StOutOfStep cur (snd d)
+        if fst d then k cur (snd d) (f :: stk) else leave (f :: stk) StOutOfStep cur (snd d)
     | OXfer t amt =>
         if contract_form p t then k cur f stk
         else let r := xfer_call p cur f t amt in
-             leave_k k (f :: stk) (fst (fst r)) (snd (fst r)) (snd r)
-    | OExit st => leave_k k stk (clamp p (st mod 1000)%N) cur f
+             leave (f :: stk) (fst (fst r)) (snd (fst r)) (snd r)
+    | OExit st => leave stk (clamp p (st mod 1000)%N) cur f
+    | OHang => leave stk StTimeout cur f
     end
   end.
+
+Notation run := (run_gen root_snap).
 
 (* ------------------------------------------------------------------ the call of a transaction *)
 
@@ -226,27 +255,31 @@ Definition plain_transfer (p : params) (t : tx) (s : wstate) (fr : frame) : N * 
   (fst r, (if ok (fst r) then snd r else s), fr).
 
 (* the scripted contract: contractCall steps, value transfer, script *)
-Definition script_call (p : params) (t : tx) (s : wstate) (fr : frame) : N * wstate * frame :=
+Definition script_call_gen (cl : frame -> list frame -> wstate) (p : params) (t : tx) (s : wstate) (fr : frame) : N * wstate * frame :=
   let d := deduct fr (p_ccall p) in
   if negb (fst d) then (StOutOfStep, s, snd d)
   else
     let r := if 0 <? t_value t then do_transfer p s (t_from t) (t_to t) (t_value t) else (StSuccess, s) in
-    if ok (fst r) then run p (t_ops t) (snd r) (snd d) [] else (fst r, s, snd d).
+    if ok (fst r) then run_gen cl p (t_async t) (t_ops t) (snd r) (snd d) [] else (fst r, s, snd d).
+
+Notation script_call := (script_call_gen root_snap).
 
 (* what the handler returned by ContractManager.GetHandler does inside the
    frame pushed by cc.Call(handler, avail).  Result as for `run`: status,
    state after popFrame, the call's frame. *)
-Definition call (p : params) (t : tx) (s : wstate) (av : Z) : N * wstate * frame :=
+Definition call_gen (cl : frame -> list frame -> wstate) (p : params) (t : tx) (s : wstate) (av : Z) : N * wstate * frame :=
   let fr := new_frame s av in
   match t_dt t with
   | DNone | DMessage =>
       if contract_form p (t_to t) then transfer_and_call p t s fr else plain_transfer p t s fr
   | DCall =>
-      if N.eqb (t_to t) (p_script p) then script_call p t s fr
+      if N.eqb (t_to t) (p_script p) then script_call_gen cl p t s fr
       else if 0 <? t_value t then transfer_and_call p t s fr
       else if contract_form p (t_to t) then fail_with_call_steps p s fr StContractNotFound
       else fail_with_call_steps p s fr StInvalidParameter
   end.
+
+Notation call := (call_gen root_snap).
 
 (* ------------------------------------------------------------------ Execute *)
 
@@ -268,7 +301,7 @@ Definition after_call (b2 : frame) (r : N * wstate * frame) : N * wstate * frame
   (st, snd (fst r), b4).
 
 (* transactionHandler.DoExecute: status, world state, base frame *)
-Definition do_execute (p : params) (t : tx) (s : wstate) : N * wstate * frame :=
+Definition do_execute_gen (cl : frame -> list frame -> wstate) (p : params) (t : tx) (s : wstate) : N * wstate * frame :=
   let b0 := new_frame s (tx_limit p t) in
   (* checkBalance *)
   if bal s (t_from t) <? p_price p * t_limit t + t_value t then (StOutOfBalance, s, b0)
@@ -278,7 +311,9 @@ Definition do_execute (p : params) (t : tx) (s : wstate) : N * wstate * frame :=
     else
       let d2 := deduct (snd d1) (p_cinput p * t_datalen t) in
       if negb (fst d2) then (StOutOfStep, s, snd d2)
-      else after_call (snd d2) (call p t s (avail (snd d2))).
+      else after_call (snd d2) (call_gen cl p t s (avail (snd d2))).
+
+Notation do_execute := (do_execute_gen root_snap).
 
 (* the `for bal.Cmp(fee) < 0` loop of Execute, non-legacy branch.
    wcs: snapshot taken before the transaction; cur: current world state. *)
@@ -298,10 +333,10 @@ Fixpoint charge_loop (fuel : nat) (wcs : wstate) (from : N) (used : Z)
     end
   else mkC true st cur price fee b.
 
-Definition execute (p : params) (t : tx) (s : wstate) : receipt * wstate :=
-  let st := fst (fst (do_execute p t s)) in
-  let s1 := snd (fst (do_execute p t s)) in
-  let base := snd (do_execute p t s) in
+Definition execute_gen (cl : frame -> list frame -> wstate) (p : params) (t : tx) (s : wstate) : receipt * wstate :=
+  let st := fst (fst (do_execute_gen cl p t s)) in
+  let s1 := snd (fst (do_execute_gen cl p t s)) in
+  let base := snd (do_execute_gen cl p t s) in
   let used0 := f_used base in
   (* sustain minimum *)
   let used := if used0 <? p_cdefault p then p_cdefault p else used0 in
@@ -313,6 +348,8 @@ Definition execute (p : params) (t : tx) (s : wstate) : receipt * wstate :=
        (if ok (c_status c) then f_btp base else [])
        (c_ok c),
    s2).
+
+Notation execute := (execute_gen root_snap).
 
 Definition fee_of (r : receipt) : Z := r_used r * r_price r.
 
